@@ -442,7 +442,13 @@ def check_walk(case):
         mu = mu_of(el["body"])
         cart = tb.kep2cart(el["a"], el["e"], el["i"], el["raan"], el["argp"], el["nu"], mu)
         assume(kappa_polar(cart) < 1e6)
-        svs.append(StateVector(cart, Date(2020, 1, 1), "cartesian", frame_for(el["body"])))
+        if len(svs) % 2:
+            # every other state is an Orbit (a StateVector with a propagator given by name): same views
+            from beyond.orbits import Orbit
+
+            svs.append(Orbit(cart, Date(2020, 1, 1), "cartesian", frame_for(el["body"]), "Kepler"))
+        else:
+            svs.append(StateVector(cart, Date(2020, 1, 1), "cartesian", frame_for(el["body"])))
         refs.append(cart)
         ks.append(kappa(el))
         polar.append(kappa_polar(cart))
@@ -501,7 +507,12 @@ def check_walk(case):
         elif op["op"] == "copy":
             from beyond.orbits.forms import get_form
 
-            svs[i] = svs[i].copy(form=get_form(form) if op.get("by_object") else form)
+            if op.get("k", 0) == 2 and not op.get("by_object"):
+                # the form (and frame) taken from a template object: copy(same=...)
+                template = svs[i].copy(form=form)
+                svs[i] = svs[i].copy(same=template)
+            else:
+                svs[i] = svs[i].copy(form=get_form(form) if op.get("by_object") else form)
             steps[i] += 1
         elif op["op"] == "twin":
             # a copy in another form, dropped: the original must not follow it
